@@ -21,10 +21,13 @@ The `Float` skeleton of the lookup (T2 `lookup_direct_hit_is_roundtrip`, `roundt
 `A5/Lemmas/C02Lookup.lean`; it cannot be imported here because `A5.Lemmas.LookupSkel` and `A5.Lemmas.HilbertOrient`
 declare two lemmas with the same names.
 
-NOT proved (float residue, kept as `centre_roundtrip_statement` / `centre_in_triangle_statement`): that the
-centre computed by `getPentagonVertices` / `polyCenter` from the `f64` constants, pushed through the inverse and the
-forward projection, lands strictly inside `anchorTri a` (with the margin that absorbs the `f64` rounding of `ij_to_s`)
-and in the same face and quintant.  Interior points in the parts of a pentagon that stick out of its lattice triangle
+* T1c `centre_roundtrip_exact`: the exact centre of the pentagon `get_pentagon_vertices` draws from the library's
+  start-up constants (`A5.Gen.Runtime`, exact rationals) lies in the cell's lattice triangle (margin > 0.14), so the
+  chain `id → pentagon centre → ij_to_s → serialize` returns the id in exact arithmetic.
+
+NOT proved (float residue, kept as `centre_roundtrip_statement` / `centre_in_triangle_statement`): that the `f64`
+evaluation of that centre, pushed through the inverse and the forward projection, stays within the 0.14 margin of
+`anchorTri a` and in the same face and quintant.  Interior points in the parts of a pentagon that stick out of its lattice triangle
 are found by the probe search, not by the direct branch; they stay with the differential search. -/
 set_option linter.unusedSectionVars false
 namespace A5.C02
@@ -92,6 +95,22 @@ theorem cells_disjoint_triangles (c c' : Cell) (hv : c.Valid) (hv' : c'.Valid) (
   rfl
 
 end field
+
+/-- **T1c `centre_roundtrip_exact`.**  The centre clause of the property in exact arithmetic, for the pentagon built
+from the constants the library really uses (`A5.Gen.Runtime`): for every valid cell of a curve resolution and every
+orientation, the exact centre of the cell's pentagon (`get_center` then `face_to_ij`, lattice frame of the quintant)
+lies strictly inside the cell's lattice triangle, `ij_to_s` locates it at the cell's own position, and re-encoding
+returns the cell's id.  (What remains for `centre_roundtrip_statement` is float rounding and the projection pair.) -/
+theorem centre_roundtrip_exact (c : Cell) (hv : c.Valid) (h2 : 2 ≤ c.res) (o : Nat) (ho : o < 6) :
+    ∃ a, sToAnchor c.s (c.res - 1).toNat o = .ok a ∧
+      anchorTri a (PG.centreIJ a).1 (PG.centreIJ a).2 ∧
+      (ijToS fieldLits (PG.centreIJ a).1 (PG.centreIJ a).2 (c.res - 1).toNat o >>=
+        fun s' => serialize ⟨c.origin, c.segment, s', c.res⟩) = .ok (encNat c) := by
+  obtain ⟨_, _, _, hlt, hn⟩ := valid_hilbert c hv h2
+  obtain ⟨a, ha, hc⟩ := C17.centre_in_anchor_triangle (c.res - 1).toNat o c.s (by omega) ho hlt
+  obtain ⟨_, a', ha', _, _, h⟩ := cell_roundtrip_exact ℚ c hv h2 o ho
+  cases Outcome.ok.inj (ha.symm.trans ha')
+  exact ⟨a, ha, hc, (h _ _ hc).2⟩
 
 /-! ## the two table conversions agree -/
 
